@@ -19,8 +19,24 @@ use serde_json::{json, Value};
 use std::collections::BTreeMap;
 use std::path::{Path, PathBuf};
 
-const DOCS: [&str; 3] = ["doc0.ucg", "doc1.ucg", "disk.ucg"];
+const DOCS: [&str; 15] = [
+    "doc0.ucg", "doc1.ucg", "disk.ucg",
+    // six diamonds of files on disk (top imports base and mid, mid imports base): mid_k, top_k
+    "alpha_mid.ucg", "alpha_top.ucg", "m1.ucg", "t1.ucg", "mid2.ucg", "top2.ucg", "zz_mid.ucg", "a_top.ucg", "dmid.ucg", "xtop.ucg", "q_mid.ucg", "q_top.ucg",
+];
+const DIAMOND_BASES: [&str; 6] = ["alpha_base.ucg", "b1.ucg", "zbase2.ucg", "zz_base.ucg", "dbase.ucg", "q_base.ucg"];
 const DISK_DOC: usize = 2;
+
+fn diamond_sources(k: usize) -> (String, String, String) {
+    let base = DIAMOND_BASES[k];
+    let mid = DOCS[3 + 2 * k];
+    (
+        "let v = 1;\n".to_string(),
+        format!("let base = import \"{}\";\nlet v = base.v;\n", base),
+        // the type error shows only through mid.v, i.e. only when mid's import of base is resolved
+        format!("let base = import \"{}\";\nlet mid = import \"{}\";\nlet bad = mid.v + \"s\";\n", base, mid),
+    )
+}
 
 #[derive(Clone, Debug, serde::Serialize, serde::Deserialize)]
 enum Op {
@@ -359,7 +375,21 @@ impl C20 {
         let ndocs = 1 + t.choice(3);
         let mut open: BTreeMap<usize, String> = BTreeMap::new();
         let mut ops = vec![];
-        for _ in 0..n {
+        let diamond_at = if t.chance(1, 5) { Some(t.choice(n)) } else { None };
+        for step in 0..n {
+            if diamond_at == Some(step) {
+                // open and close the middle file of a diamond unchanged, then open its top
+                let k = t.choice(DIAMOND_BASES.len());
+                let (_, m, top) = diamond_sources(k);
+                let (mid_doc, top_doc) = (3 + 2 * k, 4 + 2 * k);
+                if t.chance(2, 3) {
+                    ops.push(Op::Open { doc: mid_doc, text: m });
+                    ops.push(Op::Close { doc: mid_doc });
+                }
+                ops.push(Op::Open { doc: top_doc, text: top });
+                ops.push(Op::Hover { doc: top_doc, line: 2, ch: 4 });
+                ops.push(Op::Close { doc: top_doc });
+            }
             let doc = if ndocs == 3 && t.chance(1, 3) { DISK_DOC } else { t.choice(ndocs.min(2)) };
             let kind = if open.is_empty() { 0 } else { t.weighted(&[3, 5, 1, 4, 3, 3, 2, 2]) };
             match kind {
@@ -545,6 +575,12 @@ impl C20 {
         disk.insert("lib.ucg".to_string(), LIB.to_string());
         disk.insert("sub/other.ucg".to_string(), OTHER.to_string());
         disk.insert("disk.ucg".to_string(), DISK_VARIANTS[s.disk_variant % 3].to_string());
+        for k in 0..DIAMOND_BASES.len() {
+            let (b, m, t) = diamond_sources(k);
+            disk.insert(DIAMOND_BASES[k].to_string(), b);
+            disk.insert(DOCS[3 + 2 * k].to_string(), m);
+            disk.insert(DOCS[4 + 2 * k].to_string(), t);
+        }
         for (rel, c) in &disk {
             let f = ws.join(rel);
             let _ = std::fs::create_dir_all(f.parent().unwrap());
